@@ -1,14 +1,1960 @@
-//! C09 — not implemented yet (stub).
-use crate::report::{Cfg, Meta, Report};
+//! C09 — prover-supplied hints cannot change results (F-host: scripted dishonest host).
+//!
+//! Every hinted instruction is run as a real, assembled program with (1) the honest default host and
+//! (2) a host that follows a script replacing the hint (advice-stack values pushed by an injector,
+//! values returned to ADVPOP/ADVPOPW/PIPE, Merkle paths returned to MPVERIFY/MRUPDATE). The oracle is
+//! result-based and native (Rust integer ops, own F_p[x]/(x^2-x+2) arithmetic, miden-crypto trees):
+//! a dishonest run may fail, or succeed with exactly the correct final stack; nothing else.
 
-pub fn meta() -> Meta {
-    Meta { level: "exploration", rule: "stub".into(), assumptions: vec![] }
+use crate::case::{err_kind, exec_host, AsmOutcome, Case, ExecOutcome};
+use crate::report::{merge_all, Cfg, Meta, Report};
+use crate::util::{biased_felt, par_map, rng_for, Rng8, P};
+use processor::crypto::{MerklePath, MerkleStore, MerkleTree, NodeIndex, Rpo256, RpoDigest, SimpleSmt};
+use processor::{
+    AdviceExtractor, AdviceInjector, AdviceInputs, AdviceProvider, AdviceSource, DefaultHost,
+    ExecutionError, ExecutionOptions, Host, HostResponse, MemAdviceProvider, ProcessState, Program,
+    StackInputs,
+};
+use rand::Rng;
+use serde_json::{json, Value};
+use vm_core::crypto::merkle::LeafIndex;
+use vm_core::{DebugOptions, Felt, Word};
+
+type W = [u64; 4];
+
+const S1: u64 = 7_777_777;
+const S2: u64 = 8_888_888;
+
+// SCRIPT
+// ================================================================================================
+
+/// One scripted deviation of the host. `nth` counts occurrences (0-based) of the trigger kind.
+#[derive(Clone, Debug, PartialEq)]
+pub enum Step {
+    /// after the nth successful run of injector `inj`: pop `vals.len()` elements off the real advice
+    /// stack and push `vals` so that `vals[0]` is the next element popped
+    ReplaceAfter { inj: String, nth: u32, vals: Vec<u64> },
+    /// do not run the nth occurrence of injector `inj`; push `vals` (vals[0] popped first) instead
+    Instead { inj: String, nth: u32, vals: Vec<u64> },
+    /// the nth PopStack request is answered with `v` (the real element is popped and discarded)
+    Pop { nth: u32, v: u64 },
+    /// the nth PopStackWord request is answered with `w` (w[0] = element popped first)
+    PopWord { nth: u32, w: Vec<u64> },
+    /// the nth PopStackDWord request is answered with `w` (8 elements, w[0] popped first)
+    PopDWord { nth: u32, w: Vec<u64> },
+    /// the nth Merkle path handed to the VM (GetMerklePath or UpdateMerkleNode) is replaced
+    Path { nth: u32, path: Vec<W> },
 }
 
-pub fn run(_cfg: &Cfg) -> Report {
+fn s(v: u64) -> Value {
+    json!(v.to_string())
+}
+fn sv(v: &[u64]) -> Value {
+    Value::Array(v.iter().map(|x| s(*x)).collect())
+}
+fn pu(v: &Value) -> u64 {
+    v.as_str().and_then(|x| x.parse().ok()).or_else(|| v.as_u64()).unwrap_or(0)
+}
+fn pv(v: &Value) -> Vec<u64> {
+    v.as_array().map(|a| a.iter().map(pu).collect()).unwrap_or_default()
+}
+fn pw(v: &Value) -> W {
+    let n = pv(v);
+    [n.first().copied().unwrap_or(0), n.get(1).copied().unwrap_or(0), n.get(2).copied().unwrap_or(0), n.get(3).copied().unwrap_or(0)]
+}
+
+impl Step {
+    pub fn to_json(&self) -> Value {
+        match self {
+            Step::ReplaceAfter { inj, nth, vals } => json!({"step": "replace-after", "inj": inj, "nth": nth, "vals": sv(vals)}),
+            Step::Instead { inj, nth, vals } => json!({"step": "instead", "inj": inj, "nth": nth, "vals": sv(vals)}),
+            Step::Pop { nth, v } => json!({"step": "pop", "nth": nth, "v": s(*v)}),
+            Step::PopWord { nth, w } => json!({"step": "pop-word", "nth": nth, "w": sv(w)}),
+            Step::PopDWord { nth, w } => json!({"step": "pop-dword", "nth": nth, "w": sv(w)}),
+            Step::Path { nth, path } => json!({"step": "path", "nth": nth, "path": path.iter().map(|w| sv(w)).collect::<Vec<_>>()}),
+        }
+    }
+    pub fn from_json(v: &Value) -> Option<Step> {
+        let nth = v.get("nth").and_then(|n| n.as_u64()).unwrap_or(0) as u32;
+        let inj = v.get("inj").and_then(|n| n.as_str()).unwrap_or("").to_string();
+        Some(match v.get("step")?.as_str()? {
+            "replace-after" => Step::ReplaceAfter { inj, nth, vals: pv(&v["vals"]) },
+            "instead" => Step::Instead { inj, nth, vals: pv(&v["vals"]) },
+            "pop" => Step::Pop { nth, v: pu(&v["v"]) },
+            "pop-word" => Step::PopWord { nth, w: pv(&v["w"]) },
+            "pop-dword" => Step::PopDWord { nth, w: pv(&v["w"]) },
+            "path" => Step::Path { nth, path: v["path"].as_array().map(|a| a.iter().map(pw).collect()).unwrap_or_default() },
+            _ => return None,
+        })
+    }
+    fn route(&self) -> &'static str {
+        match self {
+            Step::ReplaceAfter { .. } => "replace-after-injector",
+            Step::Instead { .. } => "instead-of-injector",
+            Step::Pop { .. } => "pop-stack",
+            Step::PopWord { .. } => "pop-stack-word",
+            Step::PopDWord { .. } => "pop-stack-dword",
+            Step::Path { .. } => "merkle-path",
+        }
+    }
+}
+
+fn inj_name(i: &AdviceInjector) -> &'static str {
+    match i {
+        AdviceInjector::MerkleNodeMerge => "MerkleNodeMerge",
+        AdviceInjector::MerkleNodeToStack => "MerkleNodeToStack",
+        AdviceInjector::UpdateMerkleNode => "UpdateMerkleNode",
+        AdviceInjector::U64Div => "U64Div",
+        AdviceInjector::Ext2Inv => "Ext2Inv",
+        AdviceInjector::U32Clz => "U32Clz",
+        AdviceInjector::U32Ctz => "U32Ctz",
+        AdviceInjector::U32Clo => "U32Clo",
+        AdviceInjector::U32Cto => "U32Cto",
+        AdviceInjector::ILog2 => "ILog2",
+        _ => "other",
+    }
+}
+
+// DISHONEST HOST
+// ================================================================================================
+
+pub struct DishonestHost {
+    pub inner: DefaultHost<MemAdviceProvider>,
+    script: Vec<Step>,
+    inj_seen: Vec<(&'static str, u32)>,
+    pops: u32,
+    pop_words: u32,
+    pop_dwords: u32,
+    paths: u32,
+    /// number of script steps that actually fired
+    pub fired: u32,
+}
+
+fn w2word(w: &W) -> Word {
+    [Felt::new(w[0]), Felt::new(w[1]), Felt::new(w[2]), Felt::new(w[3])]
+}
+
+fn to_path(p: &[W]) -> MerklePath {
+    MerklePath::new(p.iter().map(|w| RpoDigest::from(w2word(w))).collect())
+}
+
+impl DishonestHost {
+    pub fn new(provider: MemAdviceProvider, script: Vec<Step>) -> Self {
+        DishonestHost { inner: DefaultHost::new(provider), script, inj_seen: vec![], pops: 0, pop_words: 0, pop_dwords: 0, paths: 0, fired: 0 }
+    }
+
+    fn bump(&mut self, name: &'static str) -> u32 {
+        for e in self.inj_seen.iter_mut() {
+            if e.0 == name {
+                e.1 += 1;
+                return e.1 - 1;
+            }
+        }
+        self.inj_seen.push((name, 1));
+        0
+    }
+
+    fn push_vals(&mut self, vals: &[u64]) -> Result<(), ExecutionError> {
+        for v in vals.iter().rev() {
+            self.inner.advice_provider_mut().push_stack(AdviceSource::Value(Felt::new(*v)))?;
+        }
+        Ok(())
+    }
+
+    fn scripted_path(&mut self) -> Option<MerklePath> {
+        let k = self.paths;
+        self.paths += 1;
+        for st in &self.script {
+            if let Step::Path { nth, path } = st {
+                if *nth == k {
+                    self.fired += 1;
+                    return Some(to_path(path));
+                }
+            }
+        }
+        None
+    }
+}
+
+impl Host for DishonestHost {
+    fn get_advice<S: ProcessState>(&mut self, process: &S, extractor: AdviceExtractor) -> Result<HostResponse, ExecutionError> {
+        match extractor {
+            AdviceExtractor::PopStack => {
+                let k = self.pops;
+                self.pops += 1;
+                let real = self.inner.get_advice(process, extractor)?;
+                for st in &self.script {
+                    if let Step::Pop { nth, v } = st {
+                        if *nth == k {
+                            self.fired += 1;
+                            return Ok(HostResponse::Element(Felt::new(*v)));
+                        }
+                    }
+                }
+                Ok(real)
+            }
+            AdviceExtractor::PopStackWord => {
+                let k = self.pop_words;
+                self.pop_words += 1;
+                let real = self.inner.get_advice(process, extractor)?;
+                for st in &self.script {
+                    if let Step::PopWord { nth, w } = st {
+                        if *nth == k && w.len() == 4 {
+                            self.fired += 1;
+                            return Ok(HostResponse::Word(w2word(&[w[0], w[1], w[2], w[3]])));
+                        }
+                    }
+                }
+                Ok(real)
+            }
+            AdviceExtractor::PopStackDWord => {
+                let k = self.pop_dwords;
+                self.pop_dwords += 1;
+                let real = self.inner.get_advice(process, extractor)?;
+                for st in &self.script {
+                    if let Step::PopDWord { nth, w } = st {
+                        if *nth == k && w.len() == 8 {
+                            self.fired += 1;
+                            return Ok(HostResponse::DoubleWord([w2word(&[w[0], w[1], w[2], w[3]]), w2word(&[w[4], w[5], w[6], w[7]])]));
+                        }
+                    }
+                }
+                Ok(real)
+            }
+            AdviceExtractor::GetMerklePath => {
+                let real = self.inner.get_advice(process, extractor);
+                match self.scripted_path() {
+                    Some(p) => Ok(HostResponse::MerklePath(p)),
+                    None => real,
+                }
+            }
+        }
+    }
+
+    fn set_advice<S: ProcessState>(&mut self, process: &S, injector: AdviceInjector) -> Result<HostResponse, ExecutionError> {
+        let name = inj_name(&injector);
+        let k = self.bump(name);
+        let mut instead: Option<Vec<u64>> = None;
+        let mut after: Option<Vec<u64>> = None;
+        for st in &self.script {
+            match st {
+                Step::Instead { inj, nth, vals } if inj == name && *nth == k => instead = Some(vals.clone()),
+                Step::ReplaceAfter { inj, nth, vals } if inj == name && *nth == k => after = Some(vals.clone()),
+                _ => {}
+            }
+        }
+        if let Some(vals) = instead {
+            self.fired += 1;
+            self.push_vals(&vals)?;
+            return Ok(HostResponse::None);
+        }
+        if matches!(injector, AdviceInjector::UpdateMerkleNode) {
+            let real = self.inner.set_advice(process, injector);
+            return match self.scripted_path() {
+                Some(p) => Ok(HostResponse::MerklePath(p)),
+                None => real,
+            };
+        }
+        let resp = self.inner.set_advice(process, injector)?;
+        if let Some(vals) = after {
+            for _ in 0..vals.len() {
+                self.inner.advice_provider_mut().pop_stack(process)?;
+            }
+            self.push_vals(&vals)?;
+            self.fired += 1;
+        }
+        Ok(resp)
+    }
+
+    fn on_event<S: ProcessState>(&mut self, _p: &S, _id: u32) -> Result<HostResponse, ExecutionError> {
+        Ok(HostResponse::None)
+    }
+    fn on_debug<S: ProcessState>(&mut self, _p: &S, _o: &DebugOptions) -> Result<HostResponse, ExecutionError> {
+        Ok(HostResponse::None)
+    }
+    fn on_trace<S: ProcessState>(&mut self, _p: &S, _id: u32) -> Result<HostResponse, ExecutionError> {
+        Ok(HostResponse::None)
+    }
+}
+
+// MERKLE TREE MODEL (miden-crypto MerkleTree / SimpleSmt<16> + own folding)
+// ================================================================================================
+
+#[derive(Clone, Debug, PartialEq)]
+pub enum TreeSpec {
+    /// full binary tree given by all its leaves (power of two many, >= 2)
+    Full(Vec<W>),
+    /// sparse depth-16 tree given by its non-empty leaves
+    Sparse16(Vec<(u64, W)>),
+}
+
+impl TreeSpec {
+    fn to_json(&self) -> Value {
+        match self {
+            TreeSpec::Full(l) => json!({"full": l.iter().map(|w| sv(w)).collect::<Vec<_>>()}),
+            TreeSpec::Sparse16(e) => json!({"sparse16": e.iter().map(|(i, w)| json!([s(*i), sv(w)])).collect::<Vec<_>>()}),
+        }
+    }
+    fn from_json(v: &Value) -> Option<TreeSpec> {
+        if let Some(a) = v.get("full").and_then(|x| x.as_array()) {
+            return Some(TreeSpec::Full(a.iter().map(pw).collect()));
+        }
+        let a = v.get("sparse16")?.as_array()?;
+        Some(TreeSpec::Sparse16(a.iter().map(|e| (pu(&e[0]), pw(&e[1]))).collect()))
+    }
+}
+
+enum TreeImpl {
+    Full(MerkleTree),
+    Sparse(Box<SimpleSmt<16>>),
+}
+
+pub struct Tree {
+    pub spec: TreeSpec,
+    imp: TreeImpl,
+}
+
+fn merge(l: &W, r: &W) -> W {
+    Rpo256::merge(&[RpoDigest::from(w2word(l)), RpoDigest::from(w2word(r))]).into()
+}
+
+/// Root obtained by hashing `node` up along `path` (bottom-up siblings), index bits LSB first.
+fn fold_root(node: &W, path: &[W], index: u64) -> W {
+    let mut cur = *node;
+    let mut idx = index;
+    for sib in path {
+        cur = if idx & 1 == 0 { merge(&cur, sib) } else { merge(sib, &cur) };
+        idx >>= 1;
+    }
+    cur
+}
+
+impl Tree {
+    pub fn build(spec: TreeSpec) -> Option<Tree> {
+        let imp = match &spec {
+            TreeSpec::Full(l) => TreeImpl::Full(MerkleTree::new(l.iter().map(w2word).collect::<Vec<Word>>()).ok()?),
+            TreeSpec::Sparse16(e) => TreeImpl::Sparse(Box::new(SimpleSmt::<16>::with_leaves(e.iter().map(|(i, w)| (*i, w2word(w)))).ok()?)),
+        };
+        Some(Tree { spec, imp })
+    }
+    pub fn depth(&self) -> u8 {
+        match &self.imp {
+            TreeImpl::Full(t) => t.depth(),
+            TreeImpl::Sparse(_) => 16,
+        }
+    }
+    pub fn root(&self) -> W {
+        match &self.imp {
+            TreeImpl::Full(t) => t.root().into(),
+            TreeImpl::Sparse(t) => t.root().into(),
+        }
+    }
+    pub fn node(&self, d: u8, i: u64) -> W {
+        if d == 0 {
+            return self.root();
+        }
+        let idx = NodeIndex::new(d, i).expect("node index");
+        match &self.imp {
+            TreeImpl::Full(t) => t.get_node(idx).expect("node").into(),
+            TreeImpl::Sparse(t) => t.get_node(idx).expect("node").into(),
+        }
+    }
+    /// siblings from the node at (d, i) up to (excluding) the root
+    pub fn path(&self, d: u8, i: u64) -> Vec<W> {
+        match &self.imp {
+            TreeImpl::Full(t) => t.get_path(NodeIndex::new(d, i).expect("idx")).expect("path").nodes().iter().map(|x| (*x).into()).collect(),
+            TreeImpl::Sparse(t) => {
+                let leaf = i << (16 - d);
+                let vp = t.open(&LeafIndex::<16>::new(leaf).expect("leaf"));
+                vp.path.nodes()[(16 - d) as usize..].iter().map(|x| (*x).into()).collect()
+            }
+        }
+    }
+    pub fn add_to(&self, store: &mut MerkleStore) {
+        match &self.imp {
+            TreeImpl::Full(t) => store.extend(t.inner_nodes()),
+            TreeImpl::Sparse(t) => store.extend(t.inner_nodes()),
+        }
+    }
+    /// root after replacing a LEAF, computed by miden-crypto (cross-check of `fold_root`)
+    pub fn root_after_leaf_update(&self, i: u64, v: &W) -> Option<W> {
+        match &self.imp {
+            TreeImpl::Full(t) => {
+                let mut t2 = t.clone();
+                t2.update_leaf(i, w2word(v)).ok()?;
+                Some(t2.root().into())
+            }
+            TreeImpl::Sparse(t) => {
+                let mut t2 = (**t).clone();
+                t2.insert(LeafIndex::<16>::new(i).ok()?, w2word(v));
+                Some(t2.root().into())
+            }
+        }
+    }
+}
+
+fn provider_for(trees: &[TreeSpec], advice: &[u64]) -> MemAdviceProvider {
+    let mut inputs = AdviceInputs::default().with_stack(advice.iter().map(|v| Felt::new(*v)).collect::<Vec<_>>());
+    if !trees.is_empty() {
+        let mut store = MerkleStore::default();
+        for t in trees {
+            if let Some(t) = Tree::build(t.clone()) {
+                t.add_to(&mut store);
+            }
+        }
+        inputs = inputs.with_merkle_store(store);
+    }
+    MemAdviceProvider::from(inputs)
+}
+
+// ONE TRIAL
+// ================================================================================================
+
+/// Everything that stays fixed for a family of trials: the assembled program and the host content.
+pub struct Ctx<'a> {
+    pub instr: &'a str,
+    pub src: &'a str,
+    pub stdlib: bool,
+    pub prog: &'a Program,
+    pub provider: &'a MemAdviceProvider,
+    pub trees: &'a [TreeSpec],
+    pub advice: &'a [u64],
+}
+
+pub struct Trial {
+    /// operand stack, top first
+    pub stack: Vec<u64>,
+    pub script: Vec<Step>,
+    /// expected final stack (top first, zero padded); None = no correct result exists (must fail)
+    pub expect: Option<Vec<u64>>,
+    pub opclass: String,
+    pub relation: String,
+}
+
+fn stack_inputs(top_first: &[u64]) -> StackInputs {
+    let mut v: Vec<Felt> = top_first.iter().map(|x| Felt::new(*x)).collect();
+    v.reverse();
+    StackInputs::new(v)
+}
+
+fn outputs_match(outs: &[u64], exp: &[u64]) -> bool {
+    let n = outs.len().max(exp.len());
+    (0..n).all(|k| outs.get(k).copied().unwrap_or(0) == exp.get(k).copied().unwrap_or(0))
+}
+
+fn witness(ctx: &Ctx, t: &Trial) -> Value {
+    json!({
+        "kind": "hint",
+        "instr": ctx.instr,
+        "src": ctx.src,
+        "stdlib": ctx.stdlib,
+        "stack_top_first": sv(&t.stack),
+        "advice_stack": sv(ctx.advice),
+        "trees": ctx.trees.iter().map(|t| t.to_json()).collect::<Vec<_>>(),
+        "script": t.script.iter().map(|s| s.to_json()).collect::<Vec<_>>(),
+        "expect": t.expect.as_ref().map(|e| sv(e)),
+        "opclass": t.opclass,
+        "relation": t.relation,
+    })
+}
+
+/// AIR verdict for a trace the harness is about to report (does the deviation survive the AIR?).
+fn air_verdict(trace: &mut processor::ExecutionTrace, si: &StackInputs) -> String {
+    let mut rng = rng_for(7, "C09-air", 0);
+    let r = crate::props::c03::rand_quad(&mut rng);
+    let fails = crate::tair::check_trace_safe::<crate::props::c03::Quad>(trace, si, &r, 3);
+    if fails.is_empty() {
+        "the resulting trace SATISFIES the whole AIR (provable)".into()
+    } else {
+        format!("the resulting trace violates the AIR ({})", fails.iter().map(|f| f.sig()).collect::<Vec<_>>().join(","))
+    }
+}
+
+#[derive(Clone, Copy, PartialEq, Eq, Debug)]
+pub enum Verdict {
+    OkCorrect,
+    Rejected,
+    Violation,
+}
+
+/// Runs one trial and applies the oracle. `air_sample`: additionally check the AIR on the trace.
+pub fn evaluate(ctx: &Ctx, t: &Trial, rep: &mut Report, air_sample: bool) -> Verdict {
+    let honest = t.script.is_empty();
+    let instr = ctx.instr;
+    rep.eval(&format!("{}|{}|{}", instr, t.opclass, t.relation));
+    rep.count("runs", &format!("{}|{}", instr, if honest { "honest" } else { "dishonest" }));
+    rep.count("relation", &format!("{}|{}", instr, t.relation));
+    rep.count("opclass", &format!("{}|{}", instr, t.opclass));
+    for st in &t.script {
+        rep.count("route", st.route());
+    }
+    let si = stack_inputs(&t.stack);
+    let mut host = DishonestHost::new(ctx.provider.clone(), t.script.clone());
+    let out = exec_host(ctx.prog, si.clone(), &mut host, ExecutionOptions::default());
+    if !honest && host.fired == 0 {
+        // the deviation never reached the VM: this run says nothing (harness gap, not a finding)
+        rep.count("unfired", &format!("{}|{}|{}", instr, t.relation, out.class()));
+    }
+    match out {
+        ExecOutcome::Panic(p) => {
+            rep.count("outcome", &format!("{}|panic", instr));
+            rep.violation(
+                format!("{}/panic/{}", instr, p.site()),
+                format!("{} host, {} operands, hint relation {}: panic at {} ({})", if honest { "honest" } else { "dishonest" }, t.opclass, t.relation, p.site(), p.message),
+                witness(ctx, t),
+            );
+            Verdict::Violation
+        }
+        ExecOutcome::Err(e) => {
+            let kind = err_kind(&e);
+            rep.count("errors", &format!("{}|{}", instr, kind));
+            if honest && t.expect.is_some() {
+                rep.count("outcome", &format!("{}|honest-failed", instr));
+                rep.violation(
+                    format!("{}/honest-failed/{}", instr, kind),
+                    format!("honest host, valid {} operands {:?}: execution failed with {}", t.opclass, t.stack, e),
+                    witness(ctx, t),
+                );
+                return Verdict::Violation;
+            }
+            if honest {
+                rep.count("outcome", &format!("{}|honest-invalid-rejected", instr));
+            } else {
+                rep.count("outcome", &format!("{}|rejected", instr));
+                rep.count("dishonest", "rejected");
+            }
+            Verdict::Rejected
+        }
+        ExecOutcome::Ok(mut trace) => {
+            let outs: Vec<u64> = trace.stack_outputs().stack().to_vec();
+            match &t.expect {
+                Some(exp) if outputs_match(&outs, exp) => {
+                    if honest {
+                        rep.count("outcome", &format!("{}|honest-ok", instr));
+                    } else {
+                        rep.count("outcome", &format!("{}|accepted-correct", instr));
+                        rep.count("dishonest", "accepted-with-correct-result");
+                        rep.count("accepted_correct_relation", &format!("{}|{}", instr, t.relation));
+                    }
+                    if air_sample {
+                        let mut rng = rng_for(11, "C09-air-sample", t.stack.first().copied().unwrap_or(0));
+                        let r = crate::props::c03::rand_quad(&mut rng);
+                        rep.count("air_checked", instr);
+                        for f in crate::tair::check_trace_safe::<crate::props::c03::Quad>(&mut trace, &si, &r, 3) {
+                            rep.violation(
+                                format!("{}/air/{}", instr, f.sig()),
+                                format!("accepted execution ({} host) does not satisfy the AIR: {} constraint {} row {} {}", if honest { "honest" } else { "dishonest" }, f.kind, f.idx, f.row, f.detail),
+                                witness(ctx, t),
+                            );
+                        }
+                    }
+                    Verdict::OkCorrect
+                }
+                Some(exp) => {
+                    let air = air_verdict(&mut trace, &si);
+                    let n = exp.len().max(4).min(outs.len());
+                    if honest {
+                        rep.count("outcome", &format!("{}|honest-wrong", instr));
+                        rep.violation(
+                            format!("{}/honest-wrong-result", instr),
+                            format!("honest host, {} operands {:?}: final stack {:?}, correct {:?}; {}", t.opclass, t.stack, &outs[..n], exp, air),
+                            witness(ctx, t),
+                        );
+                    } else {
+                        rep.count("outcome", &format!("{}|wrong-accepted", instr));
+                        rep.violation(
+                            format!("{}/wrong-result-accepted/{}", instr, t.relation),
+                            format!("dishonest host ({}), {} operands {:?}: execution completed with final stack {:?}, correct is {:?}; {}", t.relation, t.opclass, t.stack, &outs[..n], exp, air),
+                            witness(ctx, t),
+                        );
+                    }
+                    Verdict::Violation
+                }
+                None => {
+                    let air = air_verdict(&mut trace, &si);
+                    rep.count("outcome", &format!("{}|invalid-accepted", instr));
+                    rep.violation(
+                        format!("{}/invalid-operand-accepted/{}", instr, if honest { "honest" } else { t.relation.as_str() }),
+                        format!("{} host ({}), {} operands {:?} for which no correct result exists: execution completed with {:?}; {}", if honest { "honest" } else { "dishonest" }, t.relation, t.opclass, t.stack, &outs[..8.min(outs.len())], air),
+                        witness(ctx, t),
+                    );
+                    Verdict::Violation
+                }
+            }
+        }
+    }
+}
+
+fn assemble(src: &str, stdlib: bool) -> Result<Box<Program>, String> {
+    let case = Case { src: src.to_string(), stdlib, ..Default::default() };
+    match case.assemble() {
+        AsmOutcome::Ok(p) => Ok(p),
+        AsmOutcome::Err(e) => Err(e),
+        AsmOutcome::Panic(p) => Err(format!("panic {}", p.site())),
+    }
+}
+
+/// Programs are assembled once per process and shared by all shards.
+pub struct Progs {
+    map: std::collections::BTreeMap<&'static str, (String, bool, Box<Program>)>,
+}
+
+pub const PROGRAMS: &[(&str, &str, bool)] = &[
+    ("u32clz", "begin u32clz end", false),
+    ("u32ctz", "begin u32ctz end", false),
+    ("u32clo", "begin u32clo end", false),
+    ("u32cto", "begin u32cto end", false),
+    ("ilog2", "begin ilog2 end", false),
+    ("ext2inv", "begin ext2inv end", false),
+    ("ext2div", "begin ext2div end", false),
+    ("u64::div", "use.std::math::u64 begin exec.u64::div end", true),
+    ("u64::mod", "use.std::math::u64 begin exec.u64::mod end", true),
+    ("u64::divmod", "use.std::math::u64 begin exec.u64::divmod end", true),
+    ("u64::clz", "use.std::math::u64 begin exec.u64::clz end", true),
+    ("u64::ctz", "use.std::math::u64 begin exec.u64::ctz end", true),
+    ("u64::clo", "use.std::math::u64 begin exec.u64::clo end", true),
+    ("u64::cto", "use.std::math::u64 begin exec.u64::cto end", true),
+    ("falcon::mod_12289", "use.std::crypto::dsa::rpo_falcon512 begin exec.rpo_falcon512::mod_12289 end", true),
+    ("mtree_get", "begin mtree_get end", false),
+    ("mtree_set", "begin mtree_set end", false),
+    ("mtree_verify", "begin mtree_verify end", false),
+    ("mtree_merge", "begin mtree_merge end", false),
+    ("mtree_merge+get", "begin mtree_merge movup.5 movup.5 swap mtree_get end", false),
+];
+
+impl Progs {
+    pub fn build() -> Result<Progs, String> {
+        let mut map = std::collections::BTreeMap::new();
+        for (name, src, stdlib) in PROGRAMS {
+            let p = assemble(src, *stdlib).map_err(|e| format!("{name}: {e}"))?;
+            map.insert(*name, (src.to_string(), *stdlib, p));
+        }
+        Ok(Progs { map })
+    }
+    fn get(&self, name: &str) -> (&str, bool, &Program) {
+        let e = self.map.get(name).expect("program");
+        (e.0.as_str(), e.1, &e.2)
+    }
+}
+
+// NATIVE ORACLES
+// ================================================================================================
+
+fn bitcount_truth(kind: u8, a: u32) -> u64 {
+    (match kind {
+        0 => a.leading_zeros(),
+        1 => a.trailing_zeros(),
+        2 => a.leading_ones(),
+        _ => a.trailing_ones(),
+    }) as u64
+}
+
+fn mulmod(a: u64, b: u64) -> u64 {
+    ((a as u128 * b as u128) % P as u128) as u64
+}
+fn addmod(a: u64, b: u64) -> u64 {
+    ((a as u128 + b as u128) % P as u128) as u64
+}
+fn negmod(a: u64) -> u64 {
+    if a == 0 {
+        0
+    } else {
+        P - a
+    }
+}
+fn submod(a: u64, b: u64) -> u64 {
+    addmod(a, negmod(b))
+}
+fn powmod(mut b: u64, mut e: u64) -> u64 {
+    let mut r = 1u64;
+    while e > 0 {
+        if e & 1 == 1 {
+            r = mulmod(r, b);
+        }
+        b = mulmod(b, b);
+        e >>= 1;
+    }
+    r
+}
+fn invmod(a: u64) -> u64 {
+    powmod(a, P - 2)
+}
+/// product in F_p[x]/(x^2 - x + 2), elements as (c0, c1) = c0 + c1 x
+fn ext2_mul(a: (u64, u64), b: (u64, u64)) -> (u64, u64) {
+    // x^2 = x - 2
+    let a0b0 = mulmod(a.0, b.0);
+    let a1b1 = mulmod(a.1, b.1);
+    let cross = addmod(mulmod(a.0, b.1), mulmod(a.1, b.0));
+    (submod(a0b0, addmod(a1b1, a1b1)), addmod(cross, a1b1))
+}
+/// inverse via the norm: conj(a0 + a1 x) = (a0 + a1) - a1 x, N = a0^2 + a0 a1 + 2 a1^2
+fn ext2_inv(a: (u64, u64)) -> Option<(u64, u64)> {
+    if a == (0, 0) {
+        return None;
+    }
+    let n = addmod(addmod(mulmod(a.0, a.0), mulmod(a.0, a.1)), mulmod(2, mulmod(a.1, a.1)));
+    if n == 0 {
+        return None;
+    }
+    let ni = invmod(n);
+    let r = (mulmod(addmod(a.0, a.1), ni), mulmod(negmod(a.1), ni));
+    if ext2_mul(a, r) == (1, 0) {
+        Some(r)
+    } else {
+        None
+    }
+}
+
+fn rand_felt(rng: &mut Rng8) -> u64 {
+    rng.gen_range(0..P)
+}
+fn rand_word(rng: &mut Rng8) -> W {
+    [rand_felt(rng), rand_felt(rng), rand_felt(rng), rand_felt(rng)]
+}
+
+/// Shard selector: deterministic grid items are spread over the shards, so that the union of all
+/// shards covers the whole grid exactly once.
+#[derive(Clone, Copy)]
+pub struct Sel {
+    shard: usize,
+    shards: usize,
+}
+impl Sel {
+    fn mine(&self, idx: usize) -> bool {
+        idx % self.shards == self.shard
+    }
+}
+
+// FAMILY: BIT COUNTS (u32clz/ctz/clo/cto and the u64 wrappers)
+// ================================================================================================
+
+fn u32_operands() -> Vec<(u64, &'static str)> {
+    let mut v: Vec<(u64, &'static str)> = vec![(0, "zero"), (1, "one"), (u32::MAX as u64, "max"), (0xAAAA_AAAA, "alternating"), (0x5555_5555, "alternating"), (0xFFFF_0000, "half"), (0x0000_FFFF, "half"), (0xFFFF_FFFE, "near-max"), (0x7FFF_FFFF, "near-max")];
+    for k in 1..32u32 {
+        v.push((1u64 << k, "pow2"));
+        v.push(((1u64 << k) - 1, "pow2-1"));
+        v.push(((u32::MAX as u64) ^ (1u64 << k), "all-ones-but-one"));
+        if k > 1 {
+            v.push(((1u64 << k) + 1, "pow2+1"));
+        }
+    }
+    v
+}
+
+fn count_relation(h: u64, truth: u64, special: bool, random: bool) -> &'static str {
+    if h == truth {
+        "equal"
+    } else if h + 1 == truth || h == truth + 1 {
+        "off-by-one"
+    } else if random {
+        "random"
+    } else if special {
+        "boundary"
+    } else if h <= 32 {
+        "in-range-wrong"
+    } else {
+        "out-of-range"
+    }
+}
+
+/// hint grid for a bit count / logarithm: (value, special, random)
+fn count_hints(rng: &mut Rng8, truth: u64, n_rand: usize) -> Vec<(u64, bool, bool)> {
+    let mut h: Vec<(u64, bool, bool)> = (0..=64u64).map(|x| (x, false, false)).collect();
+    for x in [P - 1, P - 32, P - truth.max(1), 1u64 << 32, (1u64 << 32) + truth, 1u64 << 63, 65, 127, 128, 255, 256] {
+        h.push((x, true, false));
+    }
+    for _ in 0..n_rand {
+        h.push((rand_felt(rng), false, true));
+    }
+    h
+}
+
+const BIT_INJ: [&str; 4] = ["U32Clz", "U32Ctz", "U32Clo", "U32Cto"];
+
+fn fam_bitcount(pg: &Progs, prov: &MemAdviceProvider, sel: Sel, rng: &mut Rng8, n_rand_ops: usize, rep: &mut Report) {
+    let names = ["u32clz", "u32ctz", "u32clo", "u32cto"];
+    let mut ops = u32_operands();
+    for _ in 0..n_rand_ops {
+        ops.push((rng.gen::<u32>() as u64, "random"));
+    }
+    let fixed = u32_operands().len();
+    for (kind, name) in names.iter().enumerate() {
+        let (src, stdlib, prog) = pg.get(name);
+        let ctx = Ctx { instr: name, src, stdlib, prog, provider: prov, trees: &[], advice: &[] };
+        for (oi, (a, class)) in ops.iter().enumerate() {
+            if oi < fixed && !sel.mine(oi + kind) {
+                continue;
+            }
+            let truth = bitcount_truth(kind as u8, *a as u32);
+            let expect = Some(vec![truth, S1, S2]);
+            let stack = vec![*a, S1, S2];
+            evaluate(&ctx, &Trial { stack: stack.clone(), script: vec![], expect: expect.clone(), opclass: class.to_string(), relation: "honest".into() }, rep, oi % 16 == 0);
+            for (hi, (h, special, random)) in count_hints(rng, truth, 4).into_iter().enumerate() {
+                let rel = count_relation(h, truth, special, random);
+                let script = if (hi + oi) % 2 == 0 { vec![Step::ReplaceAfter { inj: BIT_INJ[kind].into(), nth: 0, vals: vec![h] }] } else { vec![Step::Pop { nth: 0, v: h }] };
+                evaluate(&ctx, &Trial { stack: stack.clone(), script, expect: expect.clone(), opclass: class.to_string(), relation: rel.into() }, rep, false);
+            }
+        }
+    }
+    // u64 wrappers (std::math::u64::{clz,ctz,clo,cto}): one u32 hint consumed on one of the limbs
+    let names64 = ["u64::clz", "u64::ctz", "u64::clo", "u64::cto"];
+    let limbs: [u64; 9] = [0, 1, 0x8000_0000, 0xFFFF_FFFF, 0xFFFF_FFFE, 0x7FFF_FFFF, 0x0001_0000, 0xAAAA_AAAA, 0xFFFF_0000];
+    for (kind, name) in names64.iter().enumerate() {
+        let (src, stdlib, prog) = pg.get(name);
+        let ctx = Ctx { instr: name, src, stdlib, prog, provider: prov, trees: &[], advice: &[] };
+        let mut pairs: Vec<(u64, u64, bool)> = vec![];
+        for hi in limbs {
+            for lo in limbs {
+                pairs.push((hi, lo, false));
+            }
+        }
+        for _ in 0..n_rand_ops / 2 {
+            pairs.push((rng.gen::<u32>() as u64, rng.gen::<u32>() as u64, true));
+        }
+        for (oi, (hi, lo, random)) in pairs.iter().enumerate() {
+            if !*random && !sel.mine(oi + kind) {
+                continue;
+            }
+            let n = (hi << 32) | lo;
+            let truth = (match kind {
+                0 => n.leading_zeros(),
+                1 => n.trailing_zeros(),
+                2 => n.leading_ones(),
+                _ => n.trailing_ones(),
+            }) as u64;
+            // which limb the inner u32 instruction sees (from the documented definition of the count)
+            let inner = match kind {
+                0 => if *hi == 0 { *lo } else { *hi },
+                1 => if *lo == 0 { *hi } else { *lo },
+                2 => if *hi == 0xFFFF_FFFF { *lo } else { *hi },
+                _ => if *lo == 0xFFFF_FFFF { *hi } else { *lo },
+            };
+            let inner_truth = bitcount_truth(kind as u8, inner as u32);
+            let class = if *random { "random" } else if truth >= 32 { "count>=32" } else { "count<32" };
+            let expect = Some(vec![truth, S1, S2]);
+            let stack = vec![*hi, *lo, S1, S2];
+            evaluate(&ctx, &Trial { stack: stack.clone(), script: vec![], expect: expect.clone(), opclass: class.into(), relation: "honest".into() }, rep, oi % 16 == 0);
+            for (hix, (h, special, rnd)) in count_hints(rng, inner_truth, 2).into_iter().enumerate() {
+                let rel = count_relation(h, inner_truth, special, rnd);
+                let script = if (hix + oi) % 2 == 0 { vec![Step::ReplaceAfter { inj: BIT_INJ[kind].into(), nth: 0, vals: vec![h] }] } else { vec![Step::Pop { nth: 0, v: h }] };
+                evaluate(&ctx, &Trial { stack: stack.clone(), script, expect: expect.clone(), opclass: class.into(), relation: rel.into() }, rep, false);
+            }
+        }
+    }
+}
+
+// FAMILY: ILOG2
+// ================================================================================================
+
+fn ilog2_operands() -> Vec<(u64, &'static str)> {
+    let mut v: Vec<(u64, &'static str)> = vec![(1, "one"), (P - 1, "p-1"), (P - 2, "p-1"), (3, "small"), (5, "small"), (6, "small"), (7, "small")];
+    for k in 1..64u32 {
+        let p2 = 1u64 << k;
+        v.push((p2, "pow2"));
+        if p2 + 1 < P && k > 0 {
+            v.push((p2 + 1, "pow2+1"));
+        }
+        if k > 1 {
+            v.push((p2 - 1, "pow2-1"));
+        }
+    }
+    v.push((0xFFFF_FFFF_0000_0000, "p-1")); // p - 1 as bits: high half all ones, low half zero
+    v.push((0xFFFF_FFFF, "pow2-1"));
+    v.push((0x1_0000_0001, "pow2+1"));
+    v.push((0x8000_0000_8000_0000, "both-halves"));
+    v.push((0x0000_0001_FFFF_FFFF, "both-halves"));
+    v.push((0x7FFF_FFFF_0000_0001, "both-halves"));
+    v
+}
+
+fn fam_ilog2(pg: &Progs, prov: &MemAdviceProvider, sel: Sel, rng: &mut Rng8, n_rand_ops: usize, rep: &mut Report) {
+    let (src, stdlib, prog) = pg.get("ilog2");
+    let ctx = Ctx { instr: "ilog2", src, stdlib, prog, provider: prov, trees: &[], advice: &[] };
+    let mut ops = ilog2_operands();
+    let fixed = ops.len();
+    for k in 0..n_rand_ops {
+        let a = match k % 3 {
+            0 => rng.gen_range(1..P),
+            1 => rng.gen_range(1..1u64 << 32),
+            _ => rng.gen_range(1..P) >> rng.gen_range(0..63),
+        }
+        .max(1);
+        ops.push((a, "random"));
+    }
+    for (oi, (a, class)) in ops.iter().enumerate() {
+        if oi < fixed && !sel.mine(oi) {
+            continue;
+        }
+        let truth = (63 - a.leading_zeros()) as u64;
+        let expect = Some(vec![truth, S1, S2]);
+        let stack = vec![*a, S1, S2];
+        evaluate(&ctx, &Trial { stack: stack.clone(), script: vec![], expect: expect.clone(), opclass: class.to_string(), relation: "honest".into() }, rep, oi % 16 == 0);
+        for (hi, (h, special, random)) in count_hints(rng, truth, 4).into_iter().enumerate() {
+            let mut rel = count_relation(h, truth, special, random);
+            if rel == "in-range-wrong" || (rel == "out-of-range" && h <= 63) {
+                rel = if h <= 63 { "in-range-wrong" } else { "out-of-range" };
+            }
+            let script = if (hi + oi) % 2 == 0 { vec![Step::ReplaceAfter { inj: "ILog2".into(), nth: 0, vals: vec![h] }] } else { vec![Step::Pop { nth: 0, v: h }] };
+            evaluate(&ctx, &Trial { stack: stack.clone(), script, expect: expect.clone(), opclass: class.to_string(), relation: rel.into() }, rep, false);
+        }
+    }
+    // a = 0: documented to fail; no hint may make it complete
+    if sel.mine(0) {
+        let stack = vec![0, S1, S2];
+        evaluate(&ctx, &Trial { stack: stack.clone(), script: vec![], expect: None, opclass: "zero(invalid)".into(), relation: "honest".into() }, rep, false);
+        for (h, special, random) in count_hints(rng, 0, 4) {
+            let rel = if random { "random" } else if special { "boundary" } else if h <= 63 { "in-range-wrong" } else { "out-of-range" };
+            evaluate(&ctx, &Trial { stack: stack.clone(), script: vec![Step::Instead { inj: "ILog2".into(), nth: 0, vals: vec![h] }], expect: None, opclass: "zero(invalid)".into(), relation: rel.into() }, rep, false);
+        }
+    }
+}
+
+// FAMILY: EXT2INV / EXT2DIV
+// ================================================================================================
+
+fn ext2_operands(rng: &mut Rng8, n_rand: usize) -> Vec<((u64, u64), &'static str, bool)> {
+    let x = rand_felt(rng).max(2);
+    let y = rand_felt(rng).max(2);
+    let mut v: Vec<((u64, u64), &'static str, bool)> = vec![
+        ((1, 0), "one", false),
+        ((0, 1), "(0,x)", false),
+        ((0, x), "(0,x)", false),
+        ((0, P - 1), "(0,x)", false),
+        ((x, 0), "(x,0)", false),
+        ((P - 1, 0), "(x,0)", false),
+        ((2, 0), "(x,0)", false),
+        ((1, 1), "small", false),
+        ((2, 3), "small", false),
+        ((P - 1, P - 1), "boundary", false),
+        ((P - 1, 1), "boundary", false),
+        ((1, P - 1), "boundary", false),
+        ((1u64 << 32, (1u64 << 32) - 1), "boundary", false),
+        ((x, y), "generic", false),
+    ];
+    for _ in 0..n_rand {
+        v.push(((rand_felt(rng), rand_felt(rng)), "generic", true));
+    }
+    v
+}
+
+/// hint grid for an extension-field inverse: (pair, relation)
+fn ext2_hints(rng: &mut Rng8, a: (u64, u64), t: Option<(u64, u64)>, n_rand: usize) -> Vec<((u64, u64), &'static str)> {
+    let mut h: Vec<((u64, u64), &'static str)> = vec![];
+    if let Some(t) = t {
+        h.push((t, "equal"));
+        h.push(((addmod(t.0, 1), t.1), "off-by-one"));
+        h.push(((submod(t.0, 1), t.1), "off-by-one"));
+        h.push(((t.0, addmod(t.1, 1)), "off-by-one"));
+        h.push(((t.0, submod(t.1, 1)), "off-by-one"));
+        h.push(((t.1, t.0), "related"));
+        h.push(((negmod(t.0), negmod(t.1)), "related"));
+        h.push(((negmod(t.0), t.1), "related"));
+        h.push(((t.0, negmod(t.1)), "related"));
+        h.push(((addmod(t.0, t.1), negmod(t.1)), "related"));
+        h.push(((t.0, 0), "related"));
+        h.push(((0, t.1), "related"));
+    }
+    if a.0 != 0 {
+        h.push(((invmod(a.0), 0), "related"));
+    }
+    if a.1 != 0 {
+        h.push(((0, invmod(a.1)), "related"));
+        h.push(((invmod(a.1), 0), "related"));
+    }
+    h.push((a, "related"));
+    for p in [(0, 0), (1, 0), (0, 1), (1, 1), (P - 1, 0), (0, P - 1), (P - 1, P - 1), (1u64 << 32, 0), (0, 1u64 << 32)] {
+        h.push((p, "boundary"));
+    }
+    for _ in 0..n_rand {
+        h.push(((rand_felt(rng), rand_felt(rng)), "random"));
+        h.push(((biased_felt(rng), biased_felt(rng)), "random"));
+    }
+    // label by value, not by construction: anything equal to the true inverse is "equal"
+    h.into_iter().map(|(p, r)| if Some(p) == t { (p, "equal") } else { (p, if r == "equal" { "related" } else { r }) }).collect()
+}
+
+fn ext2_scripts(hi: usize, h: (u64, u64), t: Option<(u64, u64)>, valid: bool) -> Vec<Step> {
+    if !valid {
+        return vec![Step::Instead { inj: "Ext2Inv".into(), nth: 0, vals: vec![h.0, h.1] }];
+    }
+    match (hi % 3, t) {
+        // replace only the coordinate that differs when a single pop suffices
+        (1, Some(t)) if t.1 == h.1 => vec![Step::Pop { nth: 0, v: h.0 }],
+        (1, Some(t)) if t.0 == h.0 => vec![Step::Pop { nth: 1, v: h.1 }],
+        (2, _) => vec![Step::Pop { nth: 0, v: h.0 }, Step::Pop { nth: 1, v: h.1 }],
+        _ => vec![Step::ReplaceAfter { inj: "Ext2Inv".into(), nth: 0, vals: vec![h.0, h.1] }],
+    }
+}
+
+fn fam_ext2(pg: &Progs, prov: &MemAdviceProvider, sel: Sel, rng: &mut Rng8, n_rand_ops: usize, rep: &mut Report) {
+    // ext2inv: [a1, a0, ...] -> [a1', a0', ...]
+    {
+        let (src, stdlib, prog) = pg.get("ext2inv");
+        let ctx = Ctx { instr: "ext2inv", src, stdlib, prog, provider: prov, trees: &[], advice: &[] };
+        let mut ops = ext2_operands(rng, n_rand_ops);
+        ops.push(((0, 0), "zero(invalid)", false));
+        for (oi, (a, class, random)) in ops.iter().enumerate() {
+            if !*random && !sel.mine(oi) {
+                continue;
+            }
+            let t = ext2_inv(*a);
+            let valid = *a != (0, 0);
+            if valid && t.is_none() {
+                rep.inconclusive("ext2-oracle-self-check-failed");
+                continue;
+            }
+            let expect = t.map(|t| vec![t.1, t.0, S1, S2]);
+            let stack = vec![a.1, a.0, S1, S2];
+            evaluate(&ctx, &Trial { stack: stack.clone(), script: vec![], expect: expect.clone(), opclass: class.to_string(), relation: "honest".into() }, rep, oi % 8 == 0);
+            for (hi, (h, rel)) in ext2_hints(rng, *a, t, 6).into_iter().enumerate() {
+                let script = ext2_scripts(hi, h, t, valid);
+                evaluate(&ctx, &Trial { stack: stack.clone(), script, expect: expect.clone(), opclass: class.to_string(), relation: rel.into() }, rep, false);
+            }
+        }
+    }
+    // ext2div: [b1, b0, a1, a0, ...] -> [c1, c0, ...], c = a * b^-1
+    {
+        let (src, stdlib, prog) = pg.get("ext2div");
+        let ctx = Ctx { instr: "ext2div", src, stdlib, prog, provider: prov, trees: &[], advice: &[] };
+        let mut bs = ext2_operands(rng, n_rand_ops);
+        bs.push(((0, 0), "zero(invalid)", false));
+        for (oi, (b, class, random)) in bs.iter().enumerate() {
+            if !*random && !sel.mine(oi) {
+                continue;
+            }
+            let x = rand_felt(rng);
+            let dividends: [(u64, u64); 5] = [(rand_felt(rng), rand_felt(rng)), (0, 0), (1, 0), (0, x), *b];
+            let a = dividends[oi % dividends.len()];
+            let t = ext2_inv(*b);
+            let valid = *b != (0, 0);
+            if valid && t.is_none() {
+                rep.inconclusive("ext2-oracle-self-check-failed");
+                continue;
+            }
+            let expect = t.map(|t| {
+                let c = ext2_mul(a, t);
+                vec![c.1, c.0, S1, S2]
+            });
+            let stack = vec![b.1, b.0, a.1, a.0, S1, S2];
+            let class = format!("b={}", class);
+            evaluate(&ctx, &Trial { stack: stack.clone(), script: vec![], expect: expect.clone(), opclass: class.clone(), relation: "honest".into() }, rep, oi % 8 == 0);
+            for (hi, (h, rel)) in ext2_hints(rng, *b, t, 6).into_iter().enumerate() {
+                let script = ext2_scripts(hi, h, t, valid);
+                evaluate(&ctx, &Trial { stack: stack.clone(), script, expect: expect.clone(), opclass: class.clone(), relation: rel.into() }, rep, false);
+            }
+        }
+    }
+}
+
+// FAMILY: 64-BIT DIVISION (std::math::u64::{div,mod,divmod}, rpo_falcon512::mod_12289)
+// ================================================================================================
+
+const LIMBS: [u64; 8] = [0, 1, 2, 1 << 16, 1 << 31, (1 << 32) - 2, (1 << 32) - 1, 12289];
+
+/// hint grid for a 64-bit division a / b with truth (q, r): ([q_lo, q_hi, r_lo, r_hi], relation)
+fn div_hints(rng: &mut Rng8, a: u64, b: u64, n_rand: usize) -> Vec<([u64; 4], &'static str)> {
+    let lim = |q: u64, r: u64| [q & 0xFFFF_FFFF, q >> 32, r & 0xFFFF_FFFF, r >> 32];
+    let mut h: Vec<([u64; 4], &'static str)> = vec![];
+    let (q, r) = if b == 0 { (0, a) } else { (a / b, a % b) };
+    let t = lim(q, r);
+    if b != 0 {
+        h.push((t, "equal"));
+    }
+    for (dq, dr) in [(1i64, 0i64), (-1, 0), (0, 1), (0, -1), (1, 1), (-1, -1), (1, -1), (-1, 1)] {
+        h.push((lim(q.wrapping_add(dq as u64), r.wrapping_add(dr as u64)), "off-by-one"));
+    }
+    // a = q' b + r' still holds (mod 2^64) but r' is not the remainder
+    for k in [1u64, 2, 3, q, q / 2, (1u64 << 32)] {
+        h.push((lim(q.wrapping_sub(k), r.wrapping_add(k.wrapping_mul(b))), "compensated"));
+        h.push((lim(q.wrapping_add(k), r.wrapping_sub(k.wrapping_mul(b))), "compensated"));
+    }
+    h.push((lim(0, a), "compensated"));
+    // limbs outside the 32-bit range (numerically equivalent or not)
+    if t[1] > 0 {
+        h.push(([t[0] + (1 << 32), t[1] - 1, t[2], t[3]], "out-of-range"));
+    }
+    if t[3] > 0 {
+        h.push(([t[0], t[1], t[2] + (1 << 32), t[3] - 1], "out-of-range"));
+    }
+    for k in 0..4 {
+        for v in [1u64 << 32, (1u64 << 32) + t[k], P - 1, P - (1 << 32), 1u64 << 63, P.wrapping_sub(t[k]).min(P - 1)] {
+            let mut x = t;
+            x[k] = v;
+            h.push((x, "out-of-range"));
+        }
+    }
+    // the same value read as a field element: q' = q + (p mod 2^64) tricks are limb-range violations
+    h.push(([q % P, 0, r % P, 0], "out-of-range"));
+    // structure
+    h.push(([t[1], t[0], t[3], t[2]], "related"));
+    h.push(([t[2], t[3], t[0], t[1]], "related"));
+    h.push(([t[0], t[1], t[0], t[1]], "related"));
+    h.push(([a & 0xFFFF_FFFF, a >> 32, 0, 0], "related"));
+    h.push(([b & 0xFFFF_FFFF, b >> 32, 0, 0], "related"));
+    for z in [[0u64; 4], [1, 0, 0, 0], [0, 0, 1, 0], [0xFFFF_FFFF; 4], [0xFFFF_FFFF, 0xFFFF_FFFF, 0, 0], [0, 0, 0xFFFF_FFFF, 0xFFFF_FFFF]] {
+        h.push((z, "boundary"));
+    }
+    for k in 0..n_rand {
+        if k % 2 == 0 {
+            h.push(([rng.gen::<u32>() as u64, rng.gen::<u32>() as u64, rng.gen::<u32>() as u64, rng.gen::<u32>() as u64], "random"));
+        } else {
+            h.push(([biased_felt(rng), biased_felt(rng), biased_felt(rng), biased_felt(rng)], "random"));
+        }
+    }
+    h.into_iter()
+        .map(|(x, rel)| {
+            let x = [x[0] % P, x[1] % P, x[2] % P, x[3] % P];
+            if b != 0 && x == t {
+                (x, "equal")
+            } else {
+                (x, if rel == "equal" { "related" } else { rel })
+            }
+        })
+        .collect()
+}
+
+fn div_script(hi: usize, h: &[u64; 4], truth: Option<[u64; 4]>) -> Vec<Step> {
+    match truth {
+        None => vec![Step::Instead { inj: "U64Div".into(), nth: 0, vals: h.to_vec() }],
+        Some(t) => {
+            let diff: Vec<usize> = (0..4).filter(|k| h[*k] != t[*k]).collect();
+            if hi % 2 == 1 && !diff.is_empty() {
+                diff.iter().map(|k| Step::Pop { nth: *k as u32, v: h[*k] }).collect()
+            } else {
+                vec![Step::ReplaceAfter { inj: "U64Div".into(), nth: 0, vals: h.to_vec() }]
+            }
+        }
+    }
+}
+
+fn div_class(a: u64, b: u64) -> &'static str {
+    if b == 0 {
+        "b=0(invalid)"
+    } else if b == 1 {
+        "b=1"
+    } else if a < b {
+        "a<b"
+    } else if a == b {
+        "a=b"
+    } else if b >> 32 == 0 {
+        "b<2^32"
+    } else if b & 0xFFFF_FFFF == 0 {
+        "b=hi-limb-only"
+    } else if a % b == 0 {
+        "exact"
+    } else {
+        "generic"
+    }
+}
+
+fn fam_u64div(pg: &Progs, prov: &MemAdviceProvider, sel: Sel, rng: &mut Rng8, n_rand_ops: usize, rep: &mut Report) {
+    let mut pairs: Vec<(u64, u64, bool)> = vec![];
+    for ah in LIMBS {
+        for al in LIMBS {
+            for bh in LIMBS {
+                for bl in LIMBS {
+                    pairs.push(((ah << 32) | al, (bh << 32) | bl, false));
+                }
+            }
+        }
+    }
+    for k in 0..n_rand_ops {
+        let a = rng.gen::<u64>() >> rng.gen_range(0..40);
+        let b = match k % 3 {
+            0 => rng.gen::<u64>() >> rng.gen_range(0..63),
+            1 => rng.gen::<u32>() as u64,
+            _ => a.wrapping_add(rng.gen_range(0..3)).wrapping_sub(1),
+        };
+        pairs.push((a, b, true));
+    }
+    for (ri, name) in ["u64::div", "u64::mod", "u64::divmod"].iter().enumerate() {
+        let (src, stdlib, prog) = pg.get(name);
+        let ctx = Ctx { instr: name, src, stdlib, prog, provider: prov, trees: &[], advice: &[] };
+        for (oi, (a, b, random)) in pairs.iter().enumerate() {
+            // the full limb grid is large: each (routine, pair) is visited by exactly one shard, and
+            // only every third pair per routine in one run (all pairs over the three routines)
+            if !*random && !(sel.mine(oi / 3) && oi % 3 == ri) {
+                continue;
+            }
+            let (a, b) = (*a, *b);
+            let class = div_class(a, b);
+            let truth = if b == 0 { None } else { Some([(a / b) & 0xFFFF_FFFF, (a / b) >> 32, (a % b) & 0xFFFF_FFFF, (a % b) >> 32]) };
+            let expect = truth.map(|t| match ri {
+                0 => vec![t[1], t[0], S1, S2],
+                1 => vec![t[3], t[2], S1, S2],
+                _ => vec![t[3], t[2], t[1], t[0], S1, S2],
+            });
+            let stack = vec![b >> 32, b & 0xFFFF_FFFF, a >> 32, a & 0xFFFF_FFFF, S1, S2];
+            evaluate(&ctx, &Trial { stack: stack.clone(), script: vec![], expect: expect.clone(), opclass: class.into(), relation: "honest".into() }, rep, oi % 64 == 0);
+            for (hi, (h, rel)) in div_hints(rng, a, b, 4).into_iter().enumerate() {
+                let script = div_script(hi, &h, truth);
+                evaluate(&ctx, &Trial { stack: stack.clone(), script, expect: expect.clone(), opclass: class.into(), relation: rel.into() }, rep, false);
+            }
+        }
+    }
+    // mod_12289: [a] -> [a mod 12289] for a field element a
+    {
+        let (src, stdlib, prog) = pg.get("falcon::mod_12289");
+        let ctx = Ctx { instr: "falcon::mod_12289", src, stdlib, prog, provider: prov, trees: &[], advice: &[] };
+        let mut ops: Vec<(u64, &'static str, bool)> = vec![];
+        for a in [0u64, 1, 12288, 12289, 12290, 2 * 12289 - 1, 2 * 12289, (1 << 32) - 1, 1 << 32, (1 << 32) + 12289, P - 1, P - 12289, P - 12290, 12289 * 12289, 1 << 63, (1 << 32) - 12289] {
+            ops.push((a, if a < 12289 { "a<m" } else if a % 12289 == 0 { "exact" } else { "boundary" }, false));
+        }
+        for _ in 0..n_rand_ops {
+            ops.push((rand_felt(rng), "random", true));
+        }
+        for (oi, (a, class, random)) in ops.iter().enumerate() {
+            if !*random && !sel.mine(oi) {
+                continue;
+            }
+            let (a, b) = (*a, 12289u64);
+            let truth = Some([(a / b) & 0xFFFF_FFFF, (a / b) >> 32, a % b, 0]);
+            let expect = Some(vec![a % b, S1, S2]);
+            let stack = vec![a, S1, S2];
+            evaluate(&ctx, &Trial { stack: stack.clone(), script: vec![], expect: expect.clone(), opclass: class.to_string(), relation: "honest".into() }, rep, oi % 8 == 0);
+            for (hi, (h, rel)) in div_hints(rng, a, b, 4).into_iter().enumerate() {
+                let script = div_script(hi, &h, truth);
+                evaluate(&ctx, &Trial { stack: stack.clone(), script, expect: expect.clone(), opclass: class.to_string(), relation: rel.into() }, rep, false);
+            }
+        }
+    }
+}
+
+// FAMILY: MERKLE (mtree_get / mtree_set / mtree_verify / mtree_merge)
+// ================================================================================================
+
+fn tf(w: &W) -> [u64; 4] {
+    [w[3], w[2], w[1], w[0]]
+}
+
+fn bump_word(w: &W, k: usize) -> W {
+    let mut x = *w;
+    x[k] = addmod(x[k], 1);
+    x
+}
+
+/// One variation of what the host hands out: (relation, replacement node value, replacement path).
+type MVar = (&'static str, Option<W>, Option<Vec<W>>);
+
+fn merkle_variations(rng: &mut Rng8, t: &Tree, t2: &Tree, d: u8, i: u64) -> Vec<MVar> {
+    let v = t.node(d, i);
+    let p = t.path(d, i);
+    let mut out: Vec<MVar> = vec![("equal", Some(v), Some(p.clone()))];
+    // wrong node value, honest path
+    for k in 0..4 {
+        out.push(("wrong-node-off-by-one", Some(bump_word(&v, k)), None));
+    }
+    out.push(("wrong-node-random", Some(rand_word(rng)), None));
+    out.push(("wrong-node-other", Some(p[0]), None));
+    out.push(("wrong-node-other", Some(t.root()), None));
+    out.push(("wrong-node-other", Some([0; 4]), None));
+    out.push(("wrong-node-other", Some(tf(&v)), None));
+    // wrong sibling at each level
+    for l in 0..p.len() {
+        let mut q = p.clone();
+        q[l] = bump_word(&p[l], rng.gen_range(0..4));
+        out.push(("wrong-sibling-off-by-one", None, Some(q)));
+        let mut q = p.clone();
+        q[l] = rand_word(rng);
+        out.push(("wrong-sibling-random", None, Some(q)));
+        let mut q = p.clone();
+        q[l] = v;
+        out.push(("wrong-sibling-other", None, Some(q)));
+        if l + 1 < p.len() {
+            let mut q = p.clone();
+            q.swap(l, l + 1);
+            out.push(("wrong-sibling-other", None, Some(q)));
+        }
+    }
+    // path too short / empty
+    out.push(("path-empty", None, Some(vec![])));
+    if p.len() >= 2 {
+        out.push(("path-too-short", None, Some(p[..p.len() - 1].to_vec())));
+        out.push(("path-too-short", None, Some(p[1..].to_vec())));
+        out.push(("path-too-short", None, Some(p[..1].to_vec())));
+    }
+    // path too long
+    let mut q = p.clone();
+    q.push(rand_word(rng));
+    out.push(("path-too-long", None, Some(q)));
+    let mut q = p.clone();
+    q.insert(0, rand_word(rng));
+    out.push(("path-too-long", None, Some(q)));
+    let mut q = p.clone();
+    q.push(*p.last().unwrap());
+    out.push(("path-too-long", None, Some(q)));
+    // a genuine opening of the same tree at another depth (node and path replaced consistently)
+    for d2 in 1..=t.depth() {
+        if d2 == d {
+            continue;
+        }
+        if d2 < d {
+            let j = i & ((1u64 << d2) - 1);
+            out.push(("other-depth-opening-shorter", Some(t.node(d2, j)), Some(t.path(d2, j))));
+            out.push(("path-too-short", None, Some(t.path(d2, j))));
+        } else if t.depth() <= 8 || d2 == t.depth() || d2 == d + 1 {
+            out.push(("other-depth-opening-longer", Some(t.node(d2, i)), Some(t.path(d2, i))));
+            out.push(("path-too-long", None, Some(t.path(d2, i))));
+        }
+    }
+    // path of another index at the same depth
+    if d >= 1 {
+        let n = 1u64 << d;
+        let mut js = vec![i ^ 1, (i + 1) % n, n - 1 - i];
+        js.dedup();
+        for j in js {
+            if j != i && j < n {
+                out.push(("path-other-index", None, Some(t.path(d, j))));
+                out.push(("other-index-opening", Some(t.node(d, j)), Some(t.path(d, j))));
+            }
+        }
+    }
+    // path from another tree of the same depth
+    out.push(("path-other-tree", None, Some(t2.path(d, i))));
+    out.push(("other-tree-opening", Some(t2.node(d, i)), Some(t2.path(d, i))));
+    out
+}
+
+fn index_class(d: u8, i: u64, depth: u8) -> String {
+    let pos = if i == 0 {
+        "first"
+    } else if i == (1u64 << d) - 1 {
+        "last"
+    } else {
+        "inner"
+    };
+    format!("depth{}/{}/{}", depth, if d == depth { "leaf" } else { "inner-node" }, pos)
+}
+
+fn merkle_picks(rng: &mut Rng8, t: &Tree) -> Vec<(u8, u64)> {
+    let depth = t.depth();
+    let mut v = vec![];
+    if depth <= 3 {
+        for d in 1..=depth {
+            for i in 0..(1u64 << d) {
+                v.push((d, i));
+            }
+        }
+    } else {
+        let mut ds = vec![1u8, 2, depth - 1, depth, depth];
+        if depth > 8 {
+            ds.push(depth / 2);
+        }
+        for d in ds {
+            let n = 1u64 << d;
+            for i in [0, 1, n - 1, rng.gen_range(0..n), rng.gen_range(0..n)] {
+                if !v.contains(&(d, i)) {
+                    v.push((d, i));
+                }
+            }
+        }
+        if let TreeSpec::Sparse16(e) = &t.spec {
+            for (i, _) in e.iter().take(3) {
+                v.push((16, *i));
+                v.push((16, *i ^ 1));
+                v.push((9, *i >> 7));
+            }
+        }
+    }
+    v
+}
+
+pub fn random_tree_pair(rng: &mut Rng8, depth: u8) -> (TreeSpec, TreeSpec) {
+    if depth == 16 {
+        let mk = |rng: &mut Rng8| {
+            let mut e: Vec<(u64, W)> = vec![];
+            for i in [0u64, 1, 0xFFFF, 0x8000, rng.gen_range(0..1 << 16), rng.gen_range(0..1 << 16), rng.gen_range(0..1 << 16)] {
+                if !e.iter().any(|(j, _)| *j == i) {
+                    e.push((i, rand_word(rng)));
+                }
+            }
+            TreeSpec::Sparse16(e)
+        };
+        (mk(rng), mk(rng))
+    } else {
+        let n = 1usize << depth;
+        let a = (0..n).map(|_| rand_word(rng)).collect();
+        let b = (0..n).map(|_| rand_word(rng)).collect();
+        (TreeSpec::Full(a), TreeSpec::Full(b))
+    }
+}
+
+fn fam_merkle(pg: &Progs, depth: u8, rng: &mut Rng8, rep: &mut Report) {
+    let (sa, sb) = random_tree_pair(rng, depth);
+    let specs = vec![sa.clone(), sb.clone()];
+    let (t, t2) = match (Tree::build(sa), Tree::build(sb)) {
+        (Some(a), Some(b)) => (a, b),
+        _ => {
+            rep.inconclusive("merkle-oracle-tree-construction-failed");
+            return;
+        }
+    };
+    let prov = provider_for(&specs, &[]);
+    let root = t.root();
+    rep.count("trees", &format!("depth{}", depth));
+    let picks = merkle_picks(rng, &t);
+    for (pi, (d, i)) in picks.iter().enumerate() {
+        let (d, i) = (*d, *i);
+        let v = t.node(d, i);
+        let p = t.path(d, i);
+        if fold_root(&v, &p, i) != root {
+            rep.inconclusive("merkle-oracle-self-check-failed");
+            return;
+        }
+        let class = index_class(d, i, depth);
+        let vars = merkle_variations(rng, &t, &t2, d, i);
+
+        // ---- mtree_get: [d, i, R, ...] -> [V, R, ...]
+        {
+            let (src, stdlib, prog) = pg.get("mtree_get");
+            let ctx = Ctx { instr: "mtree_get", src, stdlib, prog, provider: &prov, trees: &specs, advice: &[] };
+            let mut stack = vec![d as u64, i];
+            stack.extend(tf(&root));
+            stack.extend([S1, S2]);
+            let mut exp: Vec<u64> = tf(&v).to_vec();
+            exp.extend(tf(&root));
+            exp.extend([S1, S2]);
+            evaluate(&ctx, &Trial { stack: stack.clone(), script: vec![], expect: Some(exp.clone()), opclass: class.clone(), relation: "honest".into() }, rep, pi % 4 == 0);
+            for (vi, (rel, node, path)) in vars.iter().enumerate() {
+                let mut script = vec![];
+                if let Some(n) = node {
+                    let diff: Vec<usize> = (0..4).filter(|k| n[*k] != v[*k]).collect();
+                    if vi % 2 == 1 && diff.len() == 1 {
+                        script.push(Step::Pop { nth: diff[0] as u32, v: n[diff[0]] });
+                    } else {
+                        script.push(Step::ReplaceAfter { inj: "MerkleNodeToStack".into(), nth: 0, vals: n.to_vec() });
+                    }
+                }
+                if let Some(pp) = path {
+                    script.push(Step::Path { nth: 0, path: pp.clone() });
+                }
+                evaluate(&ctx, &Trial { stack: stack.clone(), script, expect: Some(exp.clone()), opclass: class.clone(), relation: rel.to_string() }, rep, false);
+            }
+            // honest host, operands for which nothing can be returned
+            let mut bad_root = stack.clone();
+            bad_root[2] = addmod(bad_root[2], 1);
+            evaluate(&ctx, &Trial { stack: bad_root, script: vec![], expect: None, opclass: "unknown-root(invalid)".into(), relation: "honest".into() }, rep, false);
+            let mut bad_idx = stack.clone();
+            bad_idx[1] = 1u64 << d;
+            evaluate(&ctx, &Trial { stack: bad_idx, script: vec![], expect: None, opclass: "index-out-of-range(invalid)".into(), relation: "honest".into() }, rep, false);
+            let mut bad_depth = stack.clone();
+            bad_depth[0] = depth as u64 + 1;
+            evaluate(&ctx, &Trial { stack: bad_depth, script: vec![], expect: None, opclass: "depth-too-big(invalid)".into(), relation: "honest".into() }, rep, false);
+        }
+
+        // ---- mtree_set: [d, i, R, V', ...] -> [V, R', ...]
+        {
+            let (src, stdlib, prog) = pg.get("mtree_set");
+            let ctx = Ctx { instr: "mtree_set", src, stdlib, prog, provider: &prov, trees: &specs, advice: &[] };
+            let vn = rand_word(rng);
+            let new_root = fold_root(&vn, &p, i);
+            if d == depth {
+                if let Some(r2) = t.root_after_leaf_update(i, &vn) {
+                    if r2 != new_root {
+                        rep.inconclusive("merkle-oracle-update-self-check-failed");
+                        return;
+                    }
+                    rep.count("oracle_cross_checks", "leaf-update-root");
+                }
+            }
+            let mut stack = vec![d as u64, i];
+            stack.extend(tf(&root));
+            stack.extend(tf(&vn));
+            stack.extend([S1, S2]);
+            let mut exp: Vec<u64> = tf(&v).to_vec();
+            exp.extend(tf(&new_root));
+            exp.extend([S1, S2]);
+            evaluate(&ctx, &Trial { stack: stack.clone(), script: vec![], expect: Some(exp.clone()), opclass: class.clone(), relation: "honest".into() }, rep, pi % 4 == 0);
+            for (vi, (rel, node, path)) in vars.iter().enumerate() {
+                let mut script = vec![];
+                if let Some(n) = node {
+                    let diff: Vec<usize> = (0..4).filter(|k| n[*k] != v[*k]).collect();
+                    if vi % 2 == 1 && diff.len() == 1 {
+                        script.push(Step::Pop { nth: diff[0] as u32, v: n[diff[0]] });
+                    } else {
+                        script.push(Step::ReplaceAfter { inj: "MerkleNodeToStack".into(), nth: 0, vals: n.to_vec() });
+                    }
+                }
+                if let Some(pp) = path {
+                    script.push(Step::Path { nth: 0, path: pp.clone() });
+                }
+                evaluate(&ctx, &Trial { stack: stack.clone(), script, expect: Some(exp.clone()), opclass: class.clone(), relation: rel.to_string() }, rep, false);
+            }
+            let mut bad_root = stack.clone();
+            bad_root[2] = addmod(bad_root[2], 1);
+            evaluate(&ctx, &Trial { stack: bad_root, script: vec![], expect: None, opclass: "unknown-root(invalid)".into(), relation: "honest".into() }, rep, false);
+        }
+
+        // ---- mtree_verify: [V, d, i, R, ...] unchanged; the claimed V is an operand
+        {
+            let (src, stdlib, prog) = pg.get("mtree_verify");
+            let ctx = Ctx { instr: "mtree_verify", src, stdlib, prog, provider: &prov, trees: &specs, advice: &[] };
+            let mk = |vv: &W, dd: u64, ii: u64, rr: &W| {
+                let mut st: Vec<u64> = tf(vv).to_vec();
+                st.extend([dd, ii]);
+                st.extend(tf(rr));
+                st.extend([S1, S2]);
+                st
+            };
+            let stack = mk(&v, d as u64, i, &root);
+            evaluate(&ctx, &Trial { stack: stack.clone(), script: vec![], expect: Some(stack.clone()), opclass: class.clone(), relation: "honest".into() }, rep, pi % 4 == 0);
+            for (rel, node, path) in vars.iter() {
+                // a replaced node value is a (false) CLAIM here: the operand changes, and unless the
+                // claim happens to be true no completion is acceptable
+                let claimed = node.unwrap_or(v);
+                let st = mk(&claimed, d as u64, i, &root);
+                let expect = if claimed == v { Some(st.clone()) } else { None };
+                let mut script = vec![];
+                if let Some(pp) = path {
+                    script.push(Step::Path { nth: 0, path: pp.clone() });
+                }
+                let rel2 = if node.is_some() && path.is_none() { format!("claimed-{}", rel) } else { rel.to_string() };
+                evaluate(&ctx, &Trial { stack: st, script, expect, opclass: class.clone(), relation: if rel2 == "claimed-equal" { "equal".into() } else { rel2 } }, rep, false);
+            }
+            // correct path, wrong claimed root / index / depth (honest host)
+            let other_root = t2.root();
+            // (in sparse trees the same empty node may genuinely sit at (d, i) of the other tree)
+            let st_other = mk(&v, d as u64, i, &other_root);
+            let other_true = t2.node(d, i) == v;
+            evaluate(&ctx, &Trial { stack: st_other.clone(), script: vec![], expect: if other_true { Some(st_other) } else { None }, opclass: class.clone(), relation: "claimed-wrong-root".into() }, rep, false);
+            evaluate(&ctx, &Trial { stack: mk(&v, d as u64, i, &bump_word(&root, 0)), script: vec![], expect: None, opclass: class.clone(), relation: "claimed-wrong-root".into() }, rep, false);
+            // dishonest host still handing out the genuine path for a wrong claimed root
+            evaluate(&ctx, &Trial { stack: mk(&v, d as u64, i, &bump_word(&root, 3)), script: vec![Step::Path { nth: 0, path: p.clone() }], expect: None, opclass: class.clone(), relation: "claimed-wrong-root".into() }, rep, false);
+            let j = i ^ 1;
+            let claim_true = t.node(d, j) == v;
+            let st = mk(&v, d as u64, j, &root);
+            evaluate(&ctx, &Trial { stack: st.clone(), script: vec![], expect: if claim_true { Some(st.clone()) } else { None }, opclass: class.clone(), relation: "claimed-wrong-index".into() }, rep, false);
+            evaluate(&ctx, &Trial { stack: st.clone(), script: vec![Step::Path { nth: 0, path: p.clone() }], expect: if claim_true { Some(st) } else { None }, opclass: class.clone(), relation: "claimed-wrong-index".into() }, rep, false);
+        }
+    }
+
+    // ---- mtree_merge: [R, L, ...] -> [M, ...], M = hash(L, R); then an opening of the merged tree
+    if depth < 16 {
+        let (l, r) = (t.root(), t2.root());
+        let m = merge(&l, &r);
+        let mut stack: Vec<u64> = tf(&r).to_vec();
+        stack.extend(tf(&l));
+        stack.extend([S1, S2]);
+        let mut exp: Vec<u64> = tf(&m).to_vec();
+        exp.extend([S1, S2]);
+        {
+            let (src, stdlib, prog) = pg.get("mtree_merge");
+            let ctx = Ctx { instr: "mtree_merge", src, stdlib, prog, provider: &prov, trees: &specs, advice: &[] };
+            let class = format!("depth{}", depth);
+            evaluate(&ctx, &Trial { stack: stack.clone(), script: vec![], expect: Some(exp.clone()), opclass: class.clone(), relation: "honest".into() }, rep, true);
+            evaluate(&ctx, &Trial { stack: stack.clone(), script: vec![Step::Instead { inj: "MerkleNodeMerge".into(), nth: 0, vals: vec![] }], expect: Some(exp.clone()), opclass: class.clone(), relation: "injector-skipped".into() }, rep, false);
+            evaluate(&ctx, &Trial { stack: stack.clone(), script: vec![Step::Instead { inj: "MerkleNodeMerge".into(), nth: 0, vals: vec![1, 2, 3, 4] }], expect: Some(exp.clone()), opclass: class.clone(), relation: "injector-replaced".into() }, rep, false);
+        }
+        {
+            let (src, stdlib, prog) = pg.get("mtree_merge+get");
+            let ctx = Ctx { instr: "mtree_merge+get", src, stdlib, prog, provider: &prov, trees: &specs, advice: &[] };
+            let n = 1u64 << depth;
+            for i in [0, n - 1, n, 2 * n - 1, rng.gen_range(0..2 * n)] {
+                let leaf = if i < n { t.node(depth, i) } else { t2.node(depth, i - n) };
+                // stack: [R, L, i, d+1] -> after merge and reordering [d+1, i, M] -> [V, M]
+                let mut st: Vec<u64> = tf(&r).to_vec();
+                st.extend(tf(&l));
+                st.extend([i, depth as u64 + 1, S1, S2]);
+                let mut ex: Vec<u64> = tf(&leaf).to_vec();
+                ex.extend(tf(&m));
+                ex.extend([S1, S2]);
+                let class = format!("depth{}/{}", depth, if i < n { "left" } else { "right" });
+                evaluate(&ctx, &Trial { stack: st.clone(), script: vec![], expect: Some(ex.clone()), opclass: class.clone(), relation: "honest".into() }, rep, false);
+                // the merged tree was never created on the host: the opening can only fail
+                evaluate(&ctx, &Trial { stack: st.clone(), script: vec![Step::Instead { inj: "MerkleNodeMerge".into(), nth: 0, vals: vec![] }], expect: Some(ex.clone()), opclass: class.clone(), relation: "injector-skipped".into() }, rep, false);
+                // host answers the opening of the merged tree with an opening of the left tree
+                let j = i % n;
+                let mut script = vec![Step::ReplaceAfter { inj: "MerkleNodeToStack".into(), nth: 0, vals: t.node(depth, j).to_vec() }, Step::Path { nth: 0, path: t.path(depth, j) }];
+                evaluate(&ctx, &Trial { stack: st.clone(), script: script.clone(), expect: Some(ex.clone()), opclass: class.clone(), relation: "other-depth-opening-shorter".into() }, rep, false);
+                let mut full = t.path(depth, j);
+                full.push(if i < n { r } else { l });
+                script[1] = Step::Path { nth: 0, path: full };
+                evaluate(&ctx, &Trial { stack: st, script, expect: Some(ex), opclass: class, relation: if i < n { "equal".into() } else { "other-index-opening".into() } }, rep, false);
+            }
+        }
+    }
+}
+
+// ADVICE ORDER (adv_push.n / adv_loadw / adv_pipe), model written from io_operations.md
+// ================================================================================================
+
+/// Documented semantics: values are placed so that the element popped FIRST ends up DEEPEST.
+struct AdvModel {
+    stack: Vec<u64>, // top first
+    adv: std::collections::VecDeque<u64>,
+    mem: std::collections::BTreeMap<u64, [u64; 4]>, // word as it appears on the stack, top first
+    ok: bool,
+}
+
+impl AdvModel {
+    fn pad(&mut self, n: usize) {
+        while self.stack.len() < n {
+            self.stack.push(0);
+        }
+    }
+    fn pop_adv(&mut self) -> u64 {
+        match self.adv.pop_front() {
+            Some(v) => v,
+            None => {
+                self.ok = false;
+                0
+            }
+        }
+    }
+    fn apply(&mut self, op: &str) {
+        let (name, arg) = match op.split_once('.') {
+            Some((n, a)) => (n, a.parse::<u64>().unwrap_or(0)),
+            None => (op, 0),
+        };
+        match name {
+            "adv_push" => {
+                for _ in 0..arg {
+                    let v = self.pop_adv();
+                    self.stack.insert(0, v);
+                }
+            }
+            "adv_loadw" => {
+                self.pad(4);
+                let w: Vec<u64> = (0..4).map(|_| self.pop_adv()).collect();
+                for k in 0..4 {
+                    self.stack[k] = w[3 - k];
+                }
+            }
+            "adv_pipe" => {
+                self.pad(13);
+                let w: Vec<u64> = (0..8).map(|_| self.pop_adv()).collect();
+                for k in 0..8 {
+                    self.stack[k] = w[7 - k];
+                }
+                let addr = self.stack[12];
+                // D = first word popped -> mem[a], E = second word -> mem[a+1]
+                self.mem.insert(addr, [w[3], w[2], w[1], w[0]]);
+                self.mem.insert(addr + 1, [w[7], w[6], w[5], w[4]]);
+                self.stack[12] = addr + 2;
+            }
+            "push" => self.stack.insert(0, arg),
+            "padw" => {
+                for _ in 0..4 {
+                    self.stack.insert(0, 0);
+                }
+            }
+            "dropw" => {
+                self.pad(4);
+                self.stack.drain(0..4);
+            }
+            "mem_loadw" => {
+                self.pad(4);
+                let w = self.mem.get(&arg).copied().unwrap_or([0; 4]);
+                self.stack[..4].copy_from_slice(&w);
+            }
+            _ => self.ok = false,
+        }
+    }
+}
+
+fn adv_program(rng: &mut Rng8, idx: usize) -> (Vec<String>, &'static str) {
+    let addr = [0u64, 1, 100, 1 << 20, (1u64 << 32) - 3][rng.gen_range(0..5)];
+    let pipe = |a: u64, ops: &mut Vec<String>| {
+        ops.push(format!("push.{}", a));
+        ops.extend(["padw", "padw", "padw", "adv_pipe"].iter().map(|s| s.to_string()));
+    };
+    let readback = |a: u64, ops: &mut Vec<String>| {
+        ops.push("padw".into());
+        ops.push(format!("mem_loadw.{}", a));
+    };
+    let mut ops: Vec<String> = vec![];
+    let kind: &'static str;
+    match idx {
+        0..=15 => {
+            ops.push(format!("adv_push.{}", idx + 1));
+            kind = "adv_push";
+        }
+        16 => {
+            ops.push("adv_loadw".into());
+            kind = "adv_loadw";
+        }
+        17 => {
+            ops.extend(["adv_loadw", "padw", "adv_loadw"].iter().map(|s| s.to_string()));
+            kind = "adv_loadw";
+        }
+        18 => {
+            pipe(addr, &mut ops);
+            readback(addr, &mut ops);
+            readback(addr + 1, &mut ops);
+            kind = "adv_pipe";
+        }
+        19 => {
+            pipe(addr, &mut ops);
+            ops.push("adv_pipe".into());
+            for k in 0..4 {
+                readback(addr + k, &mut ops);
+            }
+            kind = "adv_pipe";
+        }
+        _ => {
+            let n = rng.gen_range(2..5);
+            let mut pipes = vec![];
+            let mut has_pipe = false;
+            for _ in 0..n {
+                match rng.gen_range(0..5) {
+                    0 | 1 => ops.push(format!("adv_push.{}", rng.gen_range(1..=16))),
+                    2 => ops.push("adv_loadw".into()),
+                    3 => {
+                        ops.push("padw".into());
+                        ops.push("adv_loadw".into());
+                    }
+                    _ => {
+                        let a = addr + 2 * pipes.len() as u64;
+                        pipe(a, &mut ops);
+                        pipes.push(a);
+                        has_pipe = true;
+                    }
+                }
+            }
+            for a in pipes {
+                readback(a, &mut ops);
+                readback(a + 1, &mut ops);
+            }
+            kind = if has_pipe { "mixed+adv_pipe" } else { "mixed" };
+        }
+    }
+    (ops, kind)
+}
+
+fn run_adv_case(kind: &str, src: &str, advice: &[u64], expect: &[u64], script: &[Step], rep: &mut Report) {
+    let prog = match assemble(src, false) {
+        Ok(p) => p,
+        Err(e) => {
+            rep.count("adv_order_outcome", &format!("asm-err:{}", crate::report::truncate(&e, 40)));
+            return;
+        }
+    };
+    let prov = provider_for(&[], advice);
+    let honest = script.is_empty();
+    let instr = format!("adv-order/{}", kind);
+    let ctx = Ctx { instr: &instr, src, stdlib: false, prog: &prog, provider: &prov, trees: &[], advice };
+    let t = Trial { stack: vec![], script: script.to_vec(), expect: Some(expect.to_vec()), opclass: format!("{}-elements", advice.len().min(40)), relation: if honest { "honest".into() } else { "host-replaced-values".into() } };
+    // a replaced value that arrives elsewhere than documented shows up as a wrong final stack
+    evaluate(&ctx, &t, rep, honest);
+}
+
+fn fam_adv_order(sel: Sel, rng: &mut Rng8, n_random: usize, rep: &mut Report) {
+    let total = 20 + n_random;
+    for idx in 0..total {
+        if idx < 20 && !sel.mine(idx) {
+            continue;
+        }
+        let (ops, kind) = adv_program(rng, idx);
+        let base = rng.gen_range(1000..1u64 << 40);
+        let need: usize = ops.iter().map(|o| if let Some(n) = o.strip_prefix("adv_push.") { n.parse().unwrap_or(0) } else if o == "adv_loadw" { 4 } else if o == "adv_pipe" { 8 } else { 0 }).sum();
+        // uniquely numbered advice elements (+3 that must stay unread)
+        let advice: Vec<u64> = (0..need as u64 + 3).map(|k| base + k).collect();
+        let mut m = AdvModel { stack: vec![], adv: advice.iter().copied().collect(), mem: Default::default(), ok: true };
+        for o in &ops {
+            m.apply(o);
+        }
+        if !m.ok {
+            rep.inconclusive("adv-order-model-gap");
+            continue;
+        }
+        let src = format!("begin {} end", ops.join(" "));
+        run_adv_case(kind, &src, &advice, &m.stack, &[], rep);
+        rep.count("adv_order_programs", kind);
+
+        // the host answers one request with other (again uniquely numbered) values: they must land in
+        // the same documented positions
+        let mut m2 = AdvModel { stack: vec![], adv: advice.iter().copied().collect(), mem: Default::default(), ok: true };
+        let mut script = vec![];
+        let (mut pops, mut words, mut dwords) = (0u32, 0u32, 0u32);
+        let mut consumed = 0usize;
+        let fresh = base + 1_000_000;
+        let mut adv2 = advice.clone();
+        for o in &ops {
+            if let Some(n) = o.strip_prefix("adv_push.") {
+                let n: usize = n.parse().unwrap_or(0);
+                if script.is_empty() && rng.gen_bool(0.5) {
+                    let k = rng.gen_range(0..n);
+                    script.push(Step::Pop { nth: pops + k as u32, v: fresh });
+                    adv2[consumed + k] = fresh;
+                }
+                pops += n as u32;
+                consumed += n;
+            } else if o == "adv_loadw" {
+                if script.is_empty() && rng.gen_bool(0.5) {
+                    let w: Vec<u64> = (0..4).map(|k| fresh + k).collect();
+                    adv2[consumed..consumed + 4].copy_from_slice(&w);
+                    script.push(Step::PopWord { nth: words, w });
+                }
+                words += 1;
+                consumed += 4;
+            } else if o == "adv_pipe" {
+                if script.is_empty() && rng.gen_bool(0.7) {
+                    let w: Vec<u64> = (0..8).map(|k| fresh + k).collect();
+                    adv2[consumed..consumed + 8].copy_from_slice(&w);
+                    script.push(Step::PopDWord { nth: dwords, w });
+                }
+                dwords += 1;
+                consumed += 8;
+            }
+        }
+        if !script.is_empty() {
+            m2.adv = adv2.iter().copied().collect();
+            for o in &ops {
+                m2.apply(o);
+            }
+            run_adv_case(kind, &src, &advice, &m2.stack, &script, rep);
+        }
+    }
+}
+
+// DRIVER
+// ================================================================================================
+
+const BIT_RELS: [&str; 6] = ["equal", "off-by-one", "in-range-wrong", "out-of-range", "boundary", "random"];
+const EXT_RELS: [&str; 5] = ["equal", "off-by-one", "related", "boundary", "random"];
+const DIV_RELS: [&str; 7] = ["equal", "off-by-one", "compensated", "out-of-range", "related", "boundary", "random"];
+const MERKLE_RELS: [&str; 14] = [
+    "equal",
+    "wrong-node-off-by-one",
+    "wrong-node-random",
+    "wrong-node-other",
+    "wrong-sibling-off-by-one",
+    "wrong-sibling-random",
+    "wrong-sibling-other",
+    "path-empty",
+    "path-too-short",
+    "path-too-long",
+    "other-depth-opening-shorter",
+    "path-other-index",
+    "other-index-opening",
+    "path-other-tree",
+];
+
+pub fn meta() -> Meta {
+    Meta {
+        level: "fault_enumeration",
+        rule: "each evaluation = one execution of a real assembled one-instruction program (u32clz/ctz/clo/cto, ilog2, ext2inv/ext2div, std::math::u64::{div,mod,divmod,clz,ctz,clo,cto}, rpo_falcon512::mod_12289, mtree_get/set/verify/merge) or of an adv_push/adv_loadw/adv_pipe order program under either the honest default host or a scripted host that replaces the hint (advice values after the injector ran or at the pop request, or the Merkle path handed to MPVERIFY/MRUPDATE), judged by a native oracle: honest+valid operands must succeed with the exact final stack; a dishonest run may only fail or finish with the exact correct final stack; panics are violations. Hint grids: all of 0..=64 plus boundary/random field elements for counts and ilog2; truth, truth+-1, compensated (q-k, r+k*b), limbs >= 2^32, structured and random values for 64-bit division; truth, +-1 per coordinate, related, boundary and random pairs for extension inverses; wrong node, wrong sibling at every level, too short/long/empty paths, openings at another depth/index/tree for Merkle ops on full trees of depth 1..6 and a sparse depth-16 tree. distinct = distinct (instruction, operand class, hint relation to the truth)".into(),
+        assumptions: vec![
+            "native Rust integer/bit operations, the harness' own F_p and F_p[x]/(x^2-x+2) arithmetic (self-checked by multiplication) and miden-crypto MerkleTree/SimpleSmt + Rpo256::merge are the reference".into(),
+            "the host can only act through the Host trait (get_advice/set_advice responses); operands that the documentation calls undefined (non-u32 inputs to u32/u64 routines) are not generated".into(),
+            "random field elements and random Merkle siblings are sampled, small ranges are enumerated".into(),
+        ],
+    }
+}
+
+fn run_shard(pg: &Progs, cfg: &Cfg, shard: usize, shards: usize) -> Report {
+    let mut rng = rng_for(cfg.seed, "C09", shard as u64);
     let mut rep = Report::new();
-    rep.inconclusive("not-implemented");
+    let sel = Sel { shard, shards };
+    let prov = MemAdviceProvider::default();
+    let nr = cfg.n(8, 120);
+    fam_bitcount(pg, &prov, sel, &mut rng, nr * 2, &mut rep);
+    fam_ilog2(pg, &prov, sel, &mut rng, nr * 4, &mut rep);
+    fam_ext2(pg, &prov, sel, &mut rng, nr * 2, &mut rep);
+    fam_u64div(pg, &prov, sel, &mut rng, nr * 4, &mut rep);
+    // Merkle: every shard builds its own random trees; depths rotate over the shards
+    let depths: [u8; 8] = [1, 2, 3, 4, 5, 6, 16, 3];
+    let rounds = cfg.n(4, 64);
+    for r in 0..rounds {
+        let depth = depths[(shard + r) % depths.len()];
+        fam_merkle(pg, depth, &mut rng, &mut rep);
+    }
+    fam_adv_order(sel, &mut rng, cfg.n(6, 60), &mut rep);
     rep
 }
 
-pub fn replay(_v: &serde_json::Value, _rep: &mut Report) {}
+pub fn run(cfg: &Cfg) -> Report {
+    let pg = match Progs::build() {
+        Ok(p) => p,
+        Err(e) => {
+            let mut rep = Report::new();
+            rep.inconclusive(format!("program-assembly-failed:{}", crate::report::truncate(&e, 80)));
+            return rep;
+        }
+    };
+    let shards = 64;
+    let reports = par_map(shards, |sh| run_shard(&pg, cfg, sh, shards));
+    let mut rep = merge_all(reports);
+
+    // floors: honest runs observed and every instruction x applicable relation observed
+    let fams: Vec<(&str, &[&str])> = vec![
+        ("u32clz", &BIT_RELS),
+        ("u32ctz", &BIT_RELS),
+        ("u32clo", &BIT_RELS),
+        ("u32cto", &BIT_RELS),
+        ("u64::clz", &BIT_RELS),
+        ("u64::ctz", &BIT_RELS),
+        ("u64::clo", &BIT_RELS),
+        ("u64::cto", &BIT_RELS),
+        ("ilog2", &BIT_RELS),
+        ("ext2inv", &EXT_RELS),
+        ("ext2div", &EXT_RELS),
+        ("u64::div", &DIV_RELS),
+        ("u64::mod", &DIV_RELS),
+        ("u64::divmod", &DIV_RELS),
+        ("falcon::mod_12289", &DIV_RELS),
+        ("mtree_get", &MERKLE_RELS),
+        ("mtree_set", &MERKLE_RELS),
+        ("mtree_verify", &MERKLE_RELS[4..]),
+    ];
+    for (instr, rels) in &fams {
+        rep.floor(rep.get_count("runs", &format!("{}|honest", instr)) > 0, &format!("honest-runs:{}", instr));
+        for r in rels.iter() {
+            rep.floor(rep.get_count("relation", &format!("{}|{}", instr, r)) > 0, &format!("relation-observed:{}|{}", instr, r));
+        }
+    }
+    for r in ["claimed-wrong-node-off-by-one", "claimed-wrong-node-random", "claimed-wrong-root", "claimed-wrong-index"] {
+        rep.floor(rep.get_count("relation", &format!("mtree_verify|{}", r)) > 0, &format!("relation-observed:mtree_verify|{}", r));
+    }
+    rep.floor(rep.get_count("relation", "mtree_merge|injector-skipped") > 0, "relation-observed:mtree_merge|injector-skipped");
+    rep.floor(rep.get_count("runs", "mtree_merge+get|honest") > 0, "honest-runs:mtree_merge+get");
+    for d in [1, 2, 3, 4, 5, 6, 16] {
+        rep.floor(rep.get_count("trees", &format!("depth{}", d)) > 0, &format!("tree-depth-{}", d));
+    }
+    for k in ["adv_push", "adv_loadw", "adv_pipe"] {
+        rep.floor(rep.get_count("adv_order_programs", k) > 0, &format!("adv-order:{}", k));
+    }
+    rep.floor(rep.get_count("dishonest", "rejected") > 0, "some-dishonest-runs-rejected");
+    rep.floor(rep.get_count("dishonest", "accepted-with-correct-result") > 0, "some-dishonest-runs-accepted-with-correct-result");
+    // a scripted deviation that never reached the VM is a harness gap
+    let unfired: u64 = rep.hist.get("unfired").map(|h| h.values().sum()).unwrap_or(0);
+    rep.floor(unfired == 0, "every-scripted-deviation-reached-the-vm");
+    let rejected = rep.get_count("dishonest", "rejected");
+    let accepted = rep.get_count("dishonest", "accepted-with-correct-result");
+    rep.note("dishonest_runs", json!({"rejected": rejected, "accepted_with_correct_result": accepted, "scripted_deviation_not_reached": unfired}));
+    // a few concrete samples
+    rep.sample(json!({"instr": "u32clz", "program": "begin u32clz end", "stack_top_first": ["1", S1.to_string(), S2.to_string()], "script": [Step::Pop { nth: 0, v: 30 }.to_json()], "truth": 31, "required": "Err or final stack [31, ..]"}));
+    rep.sample(json!({"instr": "u64::div", "program": "use.std::math::u64 begin exec.u64::div end", "operands": "a=7, b=2", "script": [Step::ReplaceAfter { inj: "U64Div".into(), nth: 0, vals: vec![2, 0, 3, 0] }.to_json()], "hint": "q=2, r=3 (compensated)", "required": "Err or [0, 3, ..]"}));
+    rep.sample(json!({"instr": "mtree_get", "program": "begin mtree_get end", "script": "ReplaceAfter(MerkleNodeToStack, node at another depth) + Path(opening of that node)", "required": "Err or the node at (d, i)"}));
+    rep
+}
+
+pub fn replay(v: &Value, rep: &mut Report) {
+    let src = match v.get("src").and_then(|s| s.as_str()) {
+        Some(s) => s.to_string(),
+        None => return,
+    };
+    let stdlib = v.get("stdlib").and_then(|b| b.as_bool()).unwrap_or(false);
+    let instr = v.get("instr").and_then(|s| s.as_str()).unwrap_or("replay").to_string();
+    let prog = match assemble(&src, stdlib) {
+        Ok(p) => p,
+        Err(e) => {
+            rep.inconclusive(format!("replay-assembly-failed:{}", crate::report::truncate(&e, 80)));
+            return;
+        }
+    };
+    let trees: Vec<TreeSpec> = v.get("trees").and_then(|t| t.as_array()).map(|a| a.iter().filter_map(TreeSpec::from_json).collect()).unwrap_or_default();
+    let advice = v.get("advice_stack").map(pv).unwrap_or_default();
+    let prov = provider_for(&trees, &advice);
+    let script: Vec<Step> = v.get("script").and_then(|s| s.as_array()).map(|a| a.iter().filter_map(Step::from_json).collect()).unwrap_or_default();
+    let expect = v.get("expect").and_then(|e| if e.is_null() { None } else { Some(pv(e)) });
+    let t = Trial {
+        stack: v.get("stack_top_first").map(pv).unwrap_or_default(),
+        script,
+        expect,
+        opclass: v.get("opclass").and_then(|s| s.as_str()).unwrap_or("").to_string(),
+        relation: v.get("relation").and_then(|s| s.as_str()).unwrap_or("").to_string(),
+    };
+    let ctx = Ctx { instr: &instr, src: &src, stdlib, prog: &prog, provider: &prov, trees: &trees, advice: &advice };
+    evaluate(&ctx, &t, rep, false);
+}
